@@ -325,12 +325,14 @@ c1("struct", "struct",
    [M("struct-all-keys-copied", "                if (janet_checktype(st[i].key, JANET_KEYWORD)) {\n                    janet_table_put(new_grammar, st[i].key, st[i].value);\n                }", "                {\n                    janet_table_put(new_grammar, st[i].key, st[i].value);\n                }", "INV"),
     M("struct-scope-not-chained", "            new_grammar->proto = grammar;\n            b->grammar = grammar = new_grammar;\n            /* Run the main rule */\n            Janet main_rule = janet_table_rawget(grammar, janet_ckeywordv(\"main\"));\n            if (janet_checktype(main_rule, JANET_NIL))\n                peg_panic(b, \"grammar requires :main rule\");\n            rule = peg_compile1(b, main_rule);\n            break;\n        }\n        case JANET_TUPLE",
       "            b->grammar = grammar = new_grammar;\n            /* Run the main rule */\n            Janet main_rule = janet_table_rawget(grammar, janet_ckeywordv(\"main\"));\n            if (janet_checktype(main_rule, JANET_NIL))\n                peg_panic(b, \"grammar requires :main rule\");\n            rule = peg_compile1(b, main_rule);\n            break;\n        }\n        case JANET_TUPLE", "parent")],
-   unwindset={"peg_compile1.1": 3})
+   )
 c1("table", "table",
-   "@{:main patt ...}: as for structs - the new scope holds only keyword keys of the user's table, and a cache entry for the table object is the index returned for it [NOT established by the pinned tree: two INV violations, both reproduced on the real binary (SIGSEGV / out-of-bounds read in peg/match); unit disabled, reported]",
-   [M("table-scope-not-chained", "            new_grammar->proto = grammar;\n            b->grammar = grammar = new_grammar;\n            /* Run the main rule */\n            Janet main_rule = janet_table_rawget(grammar, janet_ckeywordv(\"main\"));\n            if (janet_checktype(main_rule, JANET_NIL))\n                peg_panic(b, \"grammar requires :main rule\");\n            rule = peg_compile1(b, main_rule);\n            break;\n        }\n        case JANET_STRUCT",
-      "            b->grammar = grammar = new_grammar;\n            /* Run the main rule */\n            Janet main_rule = janet_table_rawget(grammar, janet_ckeywordv(\"main\"));\n            if (janet_checktype(main_rule, JANET_NIL))\n                peg_panic(b, \"grammar requires :main rule\");\n            rule = peg_compile1(b, main_rule);\n            break;\n        }\n        case JANET_STRUCT", "parent")],
-   disabled_reason="fails on the pinned tree: (1) h_compile1_main.assertion 'a new scope holds only the KEYWORD keys of the user's grammar' - janet_table_clone copies every key, a key such as 3 is then taken for a cached rule index: (peg/match @{:main '(* 3) 3 1000000} \"abc\") -> SIGSEGV; (2) c1_case.assertion 'a cache entry for the grammar itself is the index that is returned for it' - the table is cached under the entry count although it compiles to the rule of :main: (def t @{:main \"x\"}) (peg/match ~(* \"x\" ,t ,t) \"xxx\") reads past the bytecode (valgrind: invalid read, 'unexpected opcode'). Both violate wf_peg RULEREF of the sequence rule; reported")
+   "@{:main patt ...}: as for structs - the new scope receives ONLY the keyword keys of the user's table (INV: any other key would be taken for a cached rule index), :main is compiled in it and its rule index returned; the table object itself is NOT cached (it compiles to the rule of :main, not to the entry count); regression guard for /repo 4f105a7",
+   [M("table-keyword-filter-dropped", "                if (janet_checktype(user_grammar->data[i].key, JANET_KEYWORD)) {\n                    janet_table_put(new_grammar, user_grammar->data[i].key, user_grammar->data[i].value);\n                }", "                {\n                    janet_table_put(new_grammar, user_grammar->data[i].key, user_grammar->data[i].value);\n                }", "INV"),
+    M("table-cached-again", "    if (!janet_checktype(peg, JANET_STRUCT) && !janet_checktype(peg, JANET_TABLE)) {", "    if (!janet_checktype(peg, JANET_STRUCT)) {", "cache entry for the grammar itself|not cached"),
+    M("table-cloned-again", "            JanetTable *new_grammar = janet_table(2 * user_grammar->capacity);\n            for (int32_t i = 0; i < user_grammar->capacity; i++) {", "            JanetTable *new_grammar = janet_table_clone(user_grammar);\n            for (int32_t i = 0; i < 0; i++) {", "KEYWORD keys"),
+    M("table-scope-not-chained", "            new_grammar->proto = grammar;\n            b->grammar = grammar = new_grammar;\n            /* Run the main rule */\n            Janet main_rule = janet_table_rawget(grammar, janet_ckeywordv(\"main\"));\n            if (janet_checktype(main_rule, JANET_NIL))\n                peg_panic(b, \"grammar requires :main rule\");\n            rule = peg_compile1(b, main_rule);\n            break;\n        }\n        case JANET_STRUCT",
+      "            b->grammar = grammar = new_grammar;\n            /* Run the main rule */\n            Janet main_rule = janet_table_rawget(grammar, janet_ckeywordv(\"main\"));\n            if (janet_checktype(main_rule, JANET_NIL))\n                peg_panic(b, \"grammar requires :main rule\");\n            rule = peg_compile1(b, main_rule);\n            break;\n        }\n        case JANET_STRUCT", "parent")])
 units.append({"id": "peg.wf.specials.sorted", "props": ["C12"], "tier": "quick", "class": "full-domain",
               "clause": "peg_specials is sorted strictly ascending by name - the precondition of the binary search that dispatches special forms (every special is reachable, none shadowed)",
               "src": ["peg.c"], "link": ["wrap.c"], "harness": ["peg_compile1.c"], "entry": "h_sorted", "mode": "plain", "functions": ["peg_compile1"],
@@ -352,121 +354,179 @@ LREPL = ["janet_unmarshal_size:h_um_size", "janet_unmarshal_int:h_um_int", "jane
          "janet_unmarshal_ensure:h_um_ensure", "janet_unmarshal_abstract:h_um_abstract"]
 A_LOAD = ["janet_unmarshal_size / _int / _janet deliver the image (stubs: the first int is num_constants, then the words of the harness image, then arbitrary values); janet_unmarshal_abstract returns a block of the requested size; janet_unmarshal_ensure returns only if enough input remains",
           "image shape: [RULE_NCHAR n] pairs, ONE instruction of the opcode under test at word 0 or 2 with symbolic operands, [RULE_NCHAR n] padding; every (position, bytecode length, length operand) combination is a constant case of the harness - the real function is one big loop, the case split keeps each path to one switch case per iteration"]
-A_SLACK = "the block has 3 readable words of slack behind its end: the verifier reads operand words before checking that they lie inside the bytecode (out-of-bounds read shown by peg.load.exact.*, disabled, reported)"
+A_TYPED = "peg.load.op.*: the block is a typed object: header, bytecode words, pad word, room for 2 constants (images carry 0..2 constants); the exactly-sized bytecode area (any read behind the last word leaves the object) is the subject of peg.load.exact.*"
+A_EXACT = "peg.load.exact.*: images without constants; the block ends with the last bytecode word (packed, no padding)"
+
+
+def loader_loops():
+    """ids of the three real loops of peg_unmarshal we bound (constants read loop, slot loop of choice/sequence, verifier loop): CBMC
+    numbers every backward goto - also each `do { } while (0)` of PEG_NEED - so the ids are recomputed from the source; re-run after editing peg.c.
+    Mutants must keep the number of loops before these three (replace PEG_NEED(n) by PEG_NEED(1) instead of deleting it)."""
+    import subprocess, re, tempfile, shutil
+    src = open('/repo/src/core/peg.c').read().split('\n')
+    want = {"consts": "for (uint32_t j = 0; j < peg->num_constants; j++)", "slots": "for (uint32_t j = 0; j < len; j++) {", "main": "while (i < blen) {"}
+    lines = {}
+    for k, t in want.items():
+        hits = [n for n, l in enumerate(src, 1) if l.strip() == t]
+        if k == "consts":       # the same text occurs in peg_marshal; take the one inside peg_unmarshal
+            start = next(n for n, l in enumerate(src, 1) if l.startswith('static void *peg_unmarshal'))
+            hits = [h for h in hits if h > start]
+        assert len(hits) == 1, (k, hits)
+        lines[hits[0]] = k
+    d = tempfile.mkdtemp()
+    gb = os.path.join(d, 'p.gb')
+    subprocess.run(['goto-cc', '-std=c99', '-I/repo/src/include', '-I/repo/_build', '-iquote', '/repo/src/core', '-D_FILE_OFFSET_BITS=64', '-c', '/repo/src/core/peg.c', '-o', gb], check=True, capture_output=True)
+    out = subprocess.run(['cbmc', '--show-loops', gb], capture_output=True, text=True).stdout
+    shutil.rmtree(d)
+    ids = {}
+    for m in re.finditer(r'Loop (peg_unmarshal\.\d+):\n\s+file \S+ line (\d+)', out):
+        if int(m.group(2)) in lines:
+            ids[lines[int(m.group(2))]] = m.group(1)
+    assert len(ids) == 3, ids
+    return ids
+
+
+LL = loader_loops()     # e.g. {'consts': 'peg_unmarshal.1', 'slots': 'peg_unmarshal.5', 'main': 'peg_unmarshal.6'}
+NEED = lambda name, ctx, n: M(name + "-operand-read-unguarded", ctx + "\n                PEG_NEED(%d);" % n, ctx + "\n                PEG_NEED(1);", "pointer_dereference|outside object")
 OPS_LOAD = [
- # name, opcode, clause text, find, replace  (mutant: the check of this opcode dropped / weakened)
- ("nchar", "RULE_NCHAR", "room >= 2", None),
- ("notnchar", "RULE_NOTNCHAR", "room >= 2", None),
- ("range", "RULE_RANGE", "room >= 2", None),
- ("position", "RULE_POSITION", "room >= 2", None),
- ("line", "RULE_LINE", "room >= 2", None),
- ("column", "RULE_COLUMN", "room >= 2", None),
+ # name, opcode, wf clause, mutant of the clause check, fix-revert mutant (operand words read without the PEG_NEED guard) or None
+ ("nchar", "RULE_NCHAR", "room >= 2", None, None),
+ ("notnchar", "RULE_NOTNCHAR", "room >= 2", None, None),
+ ("range", "RULE_RANGE", "room >= 2", None, None),
+ ("position", "RULE_POSITION", "room >= 2", None, None),
+ ("line", "RULE_LINE", "room >= 2", None, None),
+ ("column", "RULE_COLUMN", "room >= 2", None, None),
  ("backmatch", "RULE_BACKMATCH", "room >= 2; has_backref set",
-  M("backmatch-no-backref", "                i += 2;\n                has_backref = 1;\n                break;", "                i += 2;\n                break;", "has_backref")),
+  M("backmatch-no-backref", "                i += 2;\n                has_backref = 1;\n                break;", "                i += 2;\n                break;", "has_backref"), None),
  ("set", "RULE_SET", "room >= 9",
-  M("set-size-wrong", "                /* [8 words] */\n                i += 9;", "                /* [8 words] */\n                i += 8;", "wf_peg|does not fit|REACH")),
+  M("set-size-wrong", "                /* [8 words] */\n                i += 9;", "                /* [8 words] */\n                i += 8;", "wf_peg|does not fit|REACH"), None),
  ("look", "RULE_LOOK", "room >= 3 && RULEREF(r[2])",
-  M("look-target-unchecked", "                if (rule[2] >= blen) goto bad;\n                op_flags[rule[2]] |= 0x1;\n                i += 3;", "                i += 3;", "wf_peg")),
+  M("look-target-unchecked", "                if (rule[2] >= blen) goto bad;\n                op_flags[rule[2]] |= 0x1;\n                i += 3;", "                i += 3;", "wf_peg"),
+  NEED("look", "                /* [offset, rule] */", 3)),
  ("if", "RULE_IF", "room >= 3 && RULEREF(r[1]) && RULEREF(r[2])",
-  M("branch-second-target-unmarked", "                op_flags[rule[1]] |= 0x01;\n                op_flags[rule[2]] |= 0x01;\n                i += 3;\n                break;\n            case RULE_BETWEEN:", "                op_flags[rule[1]] |= 0x01;\n                i += 3;\n                break;\n            case RULE_BETWEEN:", "wf_peg")),
+  M("branch-second-target-unmarked", "                op_flags[rule[1]] |= 0x01;\n                op_flags[rule[2]] |= 0x01;\n                i += 3;\n                break;\n            case RULE_BETWEEN:", "                op_flags[rule[1]] |= 0x01;\n                i += 3;\n                break;\n            case RULE_BETWEEN:", "wf_peg"),
+  NEED("branch", "                /* [rule_a, rule_b (b if not a)] */", 3)),
  ("ifnot", "RULE_IFNOT", "room >= 3 && RULEREF(r[1]) && RULEREF(r[2])",
-  M("branch-first-target-range-unchecked", "                /* [rule_a, rule_b (b if not a)] */\n                if (rule[1] >= blen) goto bad;", "                /* [rule_a, rule_b (b if not a)] */", "wf_peg|pointer|bounds")),
+  M("branch-first-target-range-unchecked", "                PEG_NEED(3);\n                if (rule[1] >= blen) goto bad;\n                if (rule[2] >= blen) goto bad;\n                op_flags[rule[1]] |= 0x01;\n                op_flags[rule[2]] |= 0x01;\n                i += 3;\n                break;\n            case RULE_BETWEEN:",
+    "                PEG_NEED(3);\n                if (rule[2] >= blen) goto bad;\n                op_flags[rule[1]] |= 0x01;\n                op_flags[rule[2]] |= 0x01;\n                i += 3;\n                break;\n            case RULE_BETWEEN:", "wf_peg|pointer|bounds"),
+  NEED("branch", "                /* [rule_a, rule_b (b if not a)] */", 3)),
  ("lenprefix", "RULE_LENPREFIX", "room >= 3 && RULEREF(r[1]) && RULEREF(r[2])",
-  M("branch-first-target-unmarked", "                op_flags[rule[1]] |= 0x01;\n                op_flags[rule[2]] |= 0x01;\n                i += 3;\n                break;\n            case RULE_BETWEEN:", "                op_flags[rule[2]] |= 0x01;\n                i += 3;\n                break;\n            case RULE_BETWEEN:", "wf_peg")),
+  M("branch-first-target-unmarked", "                op_flags[rule[1]] |= 0x01;\n                op_flags[rule[2]] |= 0x01;\n                i += 3;\n                break;\n            case RULE_BETWEEN:", "                op_flags[rule[2]] |= 0x01;\n                i += 3;\n                break;\n            case RULE_BETWEEN:", "wf_peg"),
+  NEED("branch", "                /* [rule_a, rule_b (b if not a)] */", 3)),
  ("between", "RULE_BETWEEN", "room >= 4 && RULEREF(r[3])",
-  M("between-checks-wrong-word", "                if (rule[3] >= blen) goto bad;\n                op_flags[rule[3]] |= 0x01;", "                if (rule[2] >= blen) goto bad;\n                op_flags[rule[2]] |= 0x01;", "wf_peg")),
+  M("between-checks-wrong-word", "                if (rule[3] >= blen) goto bad;\n                op_flags[rule[3]] |= 0x01;", "                if (rule[2] >= blen) goto bad;\n                op_flags[rule[2]] |= 0x01;", "wf_peg"),
+  NEED("between", "                /* [lo, hi, rule] */", 4)),
  ("argument", "RULE_ARGUMENT", "room >= 3 && (int32_t) r[1] >= 0",
-  M("argument-sign-unchecked", "                if (((int32_t *)rule)[1] < 0) goto bad;\n", "", "wf_peg")),
+  M("argument-sign-unchecked", "                if (((int32_t *)rule)[1] < 0) goto bad;\n", "", "wf_peg"),
+  NEED("argument", "                /* [index, tag] */", 3)),
  ("gettag", "RULE_GETTAG", "room >= 3; has_backref set",
-  M("gettag-no-backref", "                i += 3;\n                has_backref = 1;\n                break;", "                i += 3;\n                break;", "has_backref")),
+  M("gettag-no-backref", "                i += 3;\n                has_backref = 1;\n                break;", "                i += 3;\n                break;", "has_backref"), None),
  ("constant", "RULE_CONSTANT", "room >= 3 && r[1] < clen",
-  M("constant-index-off-by-one", "                if (rule[1] >= clen) goto bad;", "                if (rule[1] > clen) goto bad;", "wf_peg")),
+  M("constant-index-off-by-one", "                if (rule[1] >= clen) goto bad;", "                if (rule[1] > clen) goto bad;", "wf_peg"),
+  NEED("constant", "                /* [constant, tag] */", 3)),
  ("capture_num", "RULE_CAPTURE_NUM", "room >= 4 && RULEREF(r[1])",
-  M("number-target-unmarked", "                if (rule[1] >= blen) goto bad;\n                op_flags[rule[1]] |= 0x01;\n                i += 4;\n                break;\n            case RULE_ACCUMULATE:", "                if (rule[1] >= blen) goto bad;\n                i += 4;\n                break;\n            case RULE_ACCUMULATE:", "wf_peg")),
+  M("number-target-unmarked", "                if (rule[1] >= blen) goto bad;\n                op_flags[rule[1]] |= 0x01;\n                i += 4;\n                break;\n            case RULE_ACCUMULATE:", "                if (rule[1] >= blen) goto bad;\n                i += 4;\n                break;\n            case RULE_ACCUMULATE:", "wf_peg"),
+  NEED("number", "                /* [rule, base, tag] */", 4)),
  ("accumulate", "RULE_ACCUMULATE", "room >= 3 && RULEREF(r[1])",
-  M("cap1-target-range-off-by-one", "                /* [rule, tag] */\n                if (rule[1] >= blen) goto bad;", "                /* [rule, tag] */\n                if (rule[1] > blen) goto bad;", "wf_peg|pointer|bounds")),
+  M("cap1-target-range-off-by-one", "                /* [rule, tag] */\n                PEG_NEED(3);\n                if (rule[1] >= blen) goto bad;", "                /* [rule, tag] */\n                PEG_NEED(3);\n                if (rule[1] > blen) goto bad;", "wf_peg|pointer|bounds"),
+  NEED("cap1", "                /* [rule, tag] */", 3)),
  ("group", "RULE_GROUP", "room >= 3 && RULEREF(r[1])",
-  M("cap1-target-unmarked", "                /* [rule, tag] */\n                if (rule[1] >= blen) goto bad;\n                op_flags[rule[1]] |= 0x01;", "                /* [rule, tag] */\n                if (rule[1] >= blen) goto bad;", "wf_peg")),
+  M("cap1-target-unmarked", "                /* [rule, tag] */\n                PEG_NEED(3);\n                if (rule[1] >= blen) goto bad;\n                op_flags[rule[1]] |= 0x01;", "                /* [rule, tag] */\n                PEG_NEED(3);\n                if (rule[1] >= blen) goto bad;", "wf_peg"),
+  NEED("cap1", "                /* [rule, tag] */", 3)),
  ("capture", "RULE_CAPTURE", "room >= 3 && RULEREF(r[1])",
-  M("cap1-size-wrong", "                op_flags[rule[1]] |= 0x01;\n                i += 3;\n                break;\n            case RULE_REPLACE:", "                op_flags[rule[1]] |= 0x01;\n                i += 2;\n                break;\n            case RULE_REPLACE:", "wf_peg|does not fit|REACH")),
+  M("cap1-size-wrong", "                op_flags[rule[1]] |= 0x01;\n                i += 3;\n                break;\n            case RULE_REPLACE:", "                op_flags[rule[1]] |= 0x01;\n                i += 2;\n                break;\n            case RULE_REPLACE:", "wf_peg|does not fit|REACH"),
+  NEED("cap1", "                /* [rule, tag] */", 3)),
  ("unref", "RULE_UNREF", "room >= 3 && RULEREF(r[1])",
-  M("cap1-target-unmarked", "                /* [rule, tag] */\n                if (rule[1] >= blen) goto bad;\n                op_flags[rule[1]] |= 0x01;", "                /* [rule, tag] */\n                if (rule[1] >= blen) goto bad;", "wf_peg")),
+  M("cap1-target-unmarked", "                /* [rule, tag] */\n                PEG_NEED(3);\n                if (rule[1] >= blen) goto bad;\n                op_flags[rule[1]] |= 0x01;", "                /* [rule, tag] */\n                PEG_NEED(3);\n                if (rule[1] >= blen) goto bad;", "wf_peg"),
+  NEED("cap1", "                /* [rule, tag] */", 3)),
  ("replace", "RULE_REPLACE", "room >= 4 && RULEREF(r[1]) && r[2] < clen",
-  M("replace-constant-unchecked", "                if (rule[2] >= clen) goto bad;\n", "", "wf_peg")),
+  M("replace-constant-unchecked", "                if (rule[2] >= clen) goto bad;\n", "", "wf_peg"),
+  NEED("replace", "                /* [rule, constant, tag] */", 4)),
  ("matchtime", "RULE_MATCHTIME", "room >= 4 && RULEREF(r[1]) && r[2] < clen",
-  M("replace-target-unmarked", "                if (rule[2] >= clen) goto bad;\n                op_flags[rule[1]] |= 0x01;", "                if (rule[2] >= clen) goto bad;", "wf_peg")),
+  M("replace-target-unmarked", "                if (rule[2] >= clen) goto bad;\n                op_flags[rule[1]] |= 0x01;", "                if (rule[2] >= clen) goto bad;", "wf_peg"),
+  NEED("replace", "                /* [rule, constant, tag] */", 4)),
  ("sub", "RULE_SUB", "room >= 3 && RULEREF(r[1]) && RULEREF(r[2])",
-  M("sub-second-target-unchecked", "                /* [rule, rule] */\n                if (rule[1] >= blen) goto bad;\n                if (rule[2] >= blen) goto bad;", "                /* [rule, rule] */\n                if (rule[1] >= blen) goto bad;", "wf_peg|pointer|bounds")),
+  M("sub-second-target-unchecked", "                /* [rule, rule] */\n                PEG_NEED(3);\n                if (rule[1] >= blen) goto bad;\n                if (rule[2] >= blen) goto bad;", "                /* [rule, rule] */\n                PEG_NEED(3);\n                if (rule[1] >= blen) goto bad;", "wf_peg|pointer|bounds"),
+  NEED("sub", "                /* [rule, rule] */", 3)),
  ("til", "RULE_TIL", "room >= 3 && RULEREF(r[1]) && RULEREF(r[2])",
-  M("sub-second-target-unmarked", "                op_flags[rule[1]] |= 0x01;\n                op_flags[rule[2]] |= 0x01;\n                i += 3;\n                break;\n            case RULE_ERROR:", "                op_flags[rule[1]] |= 0x01;\n                i += 3;\n                break;\n            case RULE_ERROR:", "wf_peg")),
+  M("sub-second-target-unmarked", "                op_flags[rule[1]] |= 0x01;\n                op_flags[rule[2]] |= 0x01;\n                i += 3;\n                break;\n            case RULE_ERROR:", "                op_flags[rule[1]] |= 0x01;\n                i += 3;\n                break;\n            case RULE_ERROR:", "wf_peg"),
+  NEED("sub", "                /* [rule, rule] */", 3)),
  ("split", "RULE_SPLIT", "room >= 3 && RULEREF(r[1]) && RULEREF(r[2])",
-  M("sub-first-target-unmarked", "                op_flags[rule[1]] |= 0x01;\n                op_flags[rule[2]] |= 0x01;\n                i += 3;\n                break;\n            case RULE_ERROR:", "                op_flags[rule[2]] |= 0x01;\n                i += 3;\n                break;\n            case RULE_ERROR:", "wf_peg")),
+  M("sub-first-target-unmarked", "                op_flags[rule[1]] |= 0x01;\n                op_flags[rule[2]] |= 0x01;\n                i += 3;\n                break;\n            case RULE_ERROR:", "                op_flags[rule[2]] |= 0x01;\n                i += 3;\n                break;\n            case RULE_ERROR:", "wf_peg"),
+  NEED("sub", "                /* [rule, rule] */", 3)),
 ] + [(n, op, "room >= 2 && RULEREF(r[1])",
-      M("onerule-target-unmarked", "                /* [rule] */\n                if (rule[1] >= blen) goto bad;\n                op_flags[rule[1]] |= 0x01;", "                /* [rule] */\n                if (rule[1] >= blen) goto bad;", "wf_peg"))
+      M("onerule-target-unmarked", "                /* [rule] */\n                PEG_NEED(2);\n                if (rule[1] >= blen) goto bad;\n                op_flags[rule[1]] |= 0x01;", "                /* [rule] */\n                PEG_NEED(2);\n                if (rule[1] >= blen) goto bad;", "wf_peg"),
+      NEED("onerule", "                /* [rule] */", 2))
      for n, op in [("error", "RULE_ERROR"), ("drop", "RULE_DROP"), ("only_tags", "RULE_ONLY_TAGS"), ("not", "RULE_NOT"), ("to", "RULE_TO"), ("thru", "RULE_THRU")]] + [
  ("readint", "RULE_READINT", "room >= 3 && (r[1] & ~0x3F) == 0 && (r[1] & 0xF) <= 8",
-  M("readint-width-unchecked", "                if ((rule[1] & ~0x30u) > JANET_MAX_READINT_WIDTH) goto bad;\n", "", "wf_peg")),
+  M("readint-width-unchecked", "                if ((rule[1] & ~0x30u) > JANET_MAX_READINT_WIDTH) goto bad;\n", "", "wf_peg"),
+  NEED("readint", "                /* [ width | (endianness << 5) | (signedness << 6), tag ] */", 3)),
  ("nth", "RULE_NTH", "room >= 4 && RULEREF(r[2])",
-  M("nth-checks-wrong-word", "                if (rule[2] >= blen) goto bad;\n                op_flags[rule[2]] |= 0x01;", "                if (rule[1] >= blen) goto bad;\n                op_flags[rule[1]] |= 0x01;", "wf_peg")),
+  M("nth-checks-wrong-word", "                if (rule[2] >= blen) goto bad;\n                op_flags[rule[2]] |= 0x01;", "                if (rule[1] >= blen) goto bad;\n                op_flags[rule[1]] |= 0x01;", "wf_peg"),
+  NEED("nth", "                /* [nth, rule, tag] */", 4)),
 ]
 GENERIC_MUT = [M("final-scan-dropped", "    for (i = 0; i < blen; i++)\n        if (op_flags[i] == 0x01) goto bad;", "", "wf_peg"),
                M("truncated-program-accepted", "    if (i != blen) goto bad;", "", "does not fit|wf_peg")]
 
 
-def load(name, op, clause, mutants, lens=None, exact=False, tail=False, **kw):
+def load(name, op, clause, mutants, lens=None, exact=False, tail=False, reject_only=False, **kw):
     defs = ["-DLOAD_OP=" + op, "-DBL=16"]
     if lens:
         defs.append("-DLOAD_LENS=" + lens)
     if tail:
-        defs += ["-DLOAD_TAIL", "-DLOAD_REJECT_ONLY"]
-    defs.append("-DLOAD_TRUNC" if exact else "-DLOAD_SLACK=3")
+        defs.append("-DLOAD_TAIL")
+    if tail or reject_only:
+        defs.append("-DLOAD_REJECT_ONLY")
+    if exact:
+        defs.append("-DLOAD_TRUNC")
+    long_ = bool(lens and "12" in lens)
     u = {"id": ("peg.load.exact." if exact else "peg.load.op.") + name, "props": ["C10", "C09", "C12"], "tier": "quick", "class": "bounded",
-         "bound": "one instruction of the opcode at word 0 or 2 of a program of <= 16 words (every bytecode length from 'ends inside the instruction' to 'one more instruction behind it'), operands symbolic, 0..2 constants; verifier loop unwound 6x (programs here have <= 4 instructions), slot loop 5x (14x in the .long units), without unwinding assertion",
+         "bound": "one instruction of the opcode at word 0 or 2 of a program of <= 16 words (every bytecode length from 'ends inside the instruction' to 'one more instruction behind it'), operands symbolic, %s; verifier loop unwound 6x (programs here have <= 4 instructions), slot loop %dx, without unwinding assertion" % ("no constants" if exact else "0..2 constants", 14 if long_ else 5),
          "clause": clause, "src": ["peg.c"], "harness": ["peg_load.c"], "entry": "h_load_op", "mode": "plain", "functions": ["peg_unmarshal"],
          "defines": defs, "replace_calls": LREPL, "remove_bodies": "cfun_peg_.*|peg_rule|peg_compile1|spec_.*|peg_marshal", "checks": STD,
-         "unwind": 20, "unwindset": {"peg_unmarshal.1": 3, "peg_unmarshal.4": 6, "peg_unmarshal.3": (14 if lens and "12" in lens else 5)}, "unwinding_assertions": False, "timeout": 300, "assumes": A_LOAD + ([] if exact else [A_SLACK]), "mutants": mutants}
+         "unwind": 20, "unwindset": {LL["consts"]: 3, LL["main"]: 6, LL["slots"]: (14 if long_ else 5)}, "unwinding_assertions": False, "timeout": 300,
+         "assumes": A_LOAD + [A_EXACT if exact else A_TYPED], "mutants": mutants}
     if tail:
-        u["unwindset"] = {"peg_unmarshal.1": 3, "peg_unmarshal.3": 4, "peg_unmarshal.4": 4}
-        u["bound"] = "the opcode as the LAST word of a program of 1 or 3 words (its length operand is whatever lies behind the bytecode); verifier loop unwound 4x, slot loop 4x, without unwinding assertion"
+        u["unwindset"] = {LL["consts"]: 3, LL["slots"]: 4, LL["main"]: 4}
+        u["bound"] = "the opcode as the LAST word of a program of 1 or 3 words (its length operand would lie behind the bytecode); verifier loop unwound 4x, slot loop 4x, without unwinding assertion"
     u.update(kw)
     units.append(u)
 
 
-EXACT_REASON = ("fails on the pinned tree: peg_unmarshal.pointer_dereference.* 'pointer outside object bounds in rule[..]' - the verifier loop reads the operand words of an instruction "
-                "BEFORE it knows that they lie inside the bytecode (the test `i != blen` comes after the loop): heap out-of-bounds read of up to 3 words behind the block, unbounded for RULE_CHOICE / RULE_SEQUENCE "
-                "(`for j < len: rule[2 + j]`); reproduced with valgrind on (unmarshal \"\\xd9\\xcf\\x08core/peg\\x01\\x00\\x05\") and (unmarshal \"\\xd9\\xcf\\x08core/peg\\x03\\x00\\x07\\xcd\\x7f\\xff\\xff\\xff\\x00\"); reported")
-for name, op, wf, mut in OPS_LOAD:
+EXACT = "loader case %s: while checking, only words INSIDE the bytecode are read (block ending with the last bytecode word, image without constants): every operand read is guarded by the number of words left (regression guard for /repo 27b2ab1)%s"
+for name, op, wf, mut, need in OPS_LOAD:
     muts = ([mut] if mut else []) + GENERIC_MUT[(0 if "RULEREF" in wf else 1):]
     load(name, op, "loader case %s: accepted => wf_peg clause `%s` holds for the instruction (what peg.rule.%s assumes); an instruction that does not fit into the bytecode is rejected; header fields, array placement, has_backref" % (op, wf, name), muts)
-    if op not in ("RULE_NCHAR", "RULE_NOTNCHAR", "RULE_RANGE", "RULE_POSITION", "RULE_LINE", "RULE_COLUMN", "RULE_BACKMATCH", "RULE_SET", "RULE_GETTAG"):
-        xdef = {"defines": ["-DLOAD_OP=" + op, "-DBL=16", "-DLOAD_TRUNC", "-DLOAD_REJECT_ONLY"]} if "clen" in wf else {}
-        load(name, op, "loader case %s: while checking, only words INSIDE the bytecode are read (exactly-sized bytecode area) [NOT established by the pinned tree; unit disabled, reported]" % op,
-             muts, exact=True, disabled_reason=EXACT_REASON, **xdef)
+    if need:
+        ro = "clen" in wf      # without constants these opcodes are never accepted
+        load(name, op, EXACT % (op, "; never accepted without constants" if ro else ""), [need] + GENERIC_MUT[1:], exact=True, reject_only=ro)
 VARM = [M("variadic-target-unmarked", "                    if (rule[2 + j] >= blen) goto bad;\n                    op_flags[rule[2 + j]] |= 0x1;", "                    if (rule[2 + j] >= blen) goto bad;", "wf_peg"),
         M("variadic-size-off-by-one", "                i += 2 + len;\n            }", "                i += 1 + len;\n            }", "wf_peg|does not fit|REACH")]
+VAR_LEN = M("variadic-length-unguarded", "                if (len > avail - 2) goto bad;\n", "", "pointer_dereference|outside object")
+VAR_NEED = M("variadic-length-word-read-unguarded", "            {\n                PEG_NEED(2);\n                uint32_t len = rule[1];", "            {\n                PEG_NEED(1);\n                uint32_t len = rule[1];", "pointer_dereference|outside object")
 for name, op in [("choice", "RULE_CHOICE"), ("sequence", "RULE_SEQUENCE")]:
     for suffix, lens, txt in [("", "0,1,2,3", "length operands 0..3"), (".long", "12,0xFFFFFFFFu", "length operands 12 (longer than the program) and 2^32-1: always rejected")]:
-        extra = {"defines": ["-DLOAD_OP=" + op, "-DBL=16", "-DLOAD_LENS=" + lens, "-DLOAD_SLACK=3", "-DLOAD_REJECT_ONLY"]} if suffix else {}
         load(name + suffix, op, "loader case %s: accepted => wf_peg clause `room >= 2 && r[1] <= room - 2 && every rule slot is an instruction start`; %s" % (op, txt),
-             (VARM if not suffix else []) + GENERIC_MUT[(0 if not suffix else 1):], lens=lens, only="C10 peg loader|REACH",
-             undecided_clauses=["memory-safety obligations of the slot loop are NOT counted here (`only`): `for j < len: rule[2 + j]` reads behind the block for a length operand larger than the program (peg.load.exact.%s.long, disabled, reported); the 2^32-1 case is cut by the unwinding bound" % name], **extra)
-        load(name + suffix, op, "loader case %s: the slot loop reads only words inside the bytecode; %s [NOT established by the pinned tree; unit disabled, reported]" % (op, txt),
-             VARM, lens=lens, exact=True, disabled_reason=EXACT_REASON)
-LITM = [M("literal-size-rounded-down", "                i += 2 + ((rule[1] + 3) >> 2);", "                i += 2 + (rule[1] >> 2);", "wf_peg|does not fit")]
+             (VARM if not suffix else []) + GENERIC_MUT[(0 if not suffix else 1):], lens=lens, reject_only=bool(suffix))
+        load(name + suffix, op, EXACT % (op, "; the slot loop runs only after `len <= words left - 2`; " + txt), [VAR_LEN] + (VARM[:1] if not suffix else []), lens=lens, exact=True, reject_only=bool(suffix))
+LITM = [M("literal-size-rounded-down", "                    uint32_t words = (rule[1] >> 2) + ((rule[1] & 3) ? 1 : 0);", "                    uint32_t words = (rule[1] >> 2);", "wf_peg|does not fit")]
+LIT_WRAP = M("literal-word-count-wraps-again", "                    uint32_t words = (rule[1] >> 2) + ((rule[1] & 3) ? 1 : 0);", "                    uint32_t words = (rule[1] + 3) >> 2;", "wf_peg")
+LIT_FIT = M("literal-data-words-unchecked", "                    if (words > avail - 2) goto bad;\n", "", "wf_peg|does not fit")
 load("literal", "RULE_LITERAL", "loader case RULE_LITERAL: accepted => `room >= 2 && r[1] <= 4*len && 2 + ((r[1]+3)>>2) <= room` (the data words of the literal lie inside the bytecode: the matcher's memcmp reads them); length operands 0, 1, 4, 5, 8, 40",
-     LITM + GENERIC_MUT[1:], lens="0,1,4,5,8,40")
-load("literal.wrap", "RULE_LITERAL", "loader case RULE_LITERAL with a length operand of 2^32-3 .. 2^32-1: rejected (the size computation (len + 3) >> 2 must not wrap) [NOT established by the pinned tree: accepted as a 2-word instruction; unit disabled, reported]",
-     LITM, lens="0xFFFFFFFDu,0xFFFFFFFFu",
-     disabled_reason="fails on the pinned tree: load_case.assertion 'accepted => the wf_peg clause of this opcode holds': (rule[1] + 3) >> 2 wraps to 0 for rule[1] >= 2^32-3, the literal is accepted with NO data words although its length word says 4 GiB: (unmarshal \"\\xd9\\xcf\\x08core/peg\\x02\\x00\\x00\\xcd\\xff\\xff\\xff\\xff\") returns a peg; on LP64 the matcher's `text + len > text_end` test rejects every text (no crash), on a 32-bit build the pointer wraps and memcmp runs over 4 GiB; wf_peg clause of RULE_LITERAL violated; reported")
-load("literal", "RULE_LITERAL", "loader case RULE_LITERAL with its length word inside the bytecode: only words INSIDE the bytecode are read while checking (exactly-sized bytecode area, no constants); the last-word case is peg.load.exact.literal.tail",
+     LITM + [LIT_FIT] + GENERIC_MUT[1:], lens="0,1,4,5,8,40")
+load("literal.wrap", "RULE_LITERAL", "loader case RULE_LITERAL with a length operand of 2^32-3 .. 2^32-1: rejected - the number of data words is computed without wrap-around (regression guard for /repo 27b2ab1: such a literal used to be accepted with no data words)",
+     [LIT_WRAP], lens="0xFFFFFFFDu,0xFFFFFFFFu", reject_only=True)
+load("literal", "RULE_LITERAL", EXACT % ("RULE_LITERAL", " (length word inside the bytecode; the last-word case is peg.load.exact.literal.tail)"),
      LITM + GENERIC_MUT[1:], lens="0,1,4,5,8,40", exact=True)
 TAILM = [M("truncated-program-accepted", "    if (i != blen) goto bad;", "", "does not fit|wf_peg")]
+TAIL_NEED = {"literal": M("literal-length-word-read-unguarded", "            case RULE_LITERAL:\n                PEG_NEED(2);", "            case RULE_LITERAL:\n                PEG_NEED(1);", "pointer_dereference|outside object"),
+             "choice": VAR_NEED, "sequence": VAR_NEED}
 for name, op in [("literal", "RULE_LITERAL"), ("choice", "RULE_CHOICE"), ("sequence", "RULE_SEQUENCE")]:
-    load(name + ".tail", op, "loader case %s as the last word of the program (the length operand lies behind the bytecode): always rejected" % op, TAILM, tail=True)
-    load(name + ".tail", op, "loader case %s as the last word: the length operand behind the bytecode is not read [NOT established by the pinned tree; unit disabled, reported]" % op, TAILM, tail=True, exact=True, disabled_reason=EXACT_REASON)
+    load(name + ".tail", op, "loader case %s as the last word of the program (the length operand would lie behind the bytecode): always rejected" % op, TAILM, tail=True)
+    load(name + ".tail", op, EXACT % (op, "; the opcode as the last word: the length operand behind the bytecode is not read"), [TAIL_NEED[name]], tail=True, exact=True)
 load("unknown", "RULE_ONLY_TAGS + 1", "loader: an opcode beyond the last known one is rejected wherever it stands (the matcher's switch has no default case that returns)",
-     [M("unknown-opcode-skipped", "            default:\n                goto bad;\n        }\n    }\n\n    /* last instruction cannot overflow */", "            default:\n                i += 2;\n                break;\n        }\n    }\n\n    /* last instruction cannot overflow */", "wf_peg")],
-     defines=["-DLOAD_OP=RULE_ONLY_TAGS + 1", "-DBL=16", "-DLOAD_SLACK=3", "-DLOAD_REJECT_ONLY"])
+     [M("unknown-opcode-skipped", "            default:\n                goto bad;\n        }\n#undef PEG_NEED", "            default:\n                i += 2;\n                break;\n        }\n#undef PEG_NEED", "wf_peg")],
+     reject_only=True)
 
 FR = {"id": "peg.load.frame", "props": ["C10", "C09", "C12"], "tier": "quick", "class": "bounded",
       "bound": "programs of 0..5 words ([RULE_NCHAR n] pairs), 0..2 constants",
@@ -474,7 +534,7 @@ FR = {"id": "peg.load.frame", "props": ["C10", "C09", "C12"], "tier": "quick", "
       "src": ["peg.c"], "harness": ["peg_load.c"], "entry": "h_load_frame", "mode": "plain", "functions": ["peg_unmarshal", "size_padded"],
       "defines": ["-DLOAD_FRAME", "-DVC_OWN_PANIC", "-DBL=8"], "replace_calls": LREPL + ["calloc:h_calloc", "free:h_free"],
       "remove_bodies": "cfun_peg_.*|peg_rule|peg_compile1|spec_.*|peg_marshal", "checks": STD, "unwind": 12, "unwinding_assertions": True, "timeout": 300,
-      "assumes": A_LOAD[:1] + ["calloc returns zeroed memory (harness model)"],
+      "assumes": A_LOAD[:1] + ["calloc returns zeroed memory (harness model)", "typed block: header, words, pad word, room for 2 constants"],
       "mutants": [M("flags-leak-on-reject", "bad:\n    janet_free(op_flags);\n    janet_panic(\"invalid peg bytecode\");", "bad:\n    janet_panic(\"invalid peg bytecode\");", "freed before"),
                   M("constants-read-first", "    for (size_t i = 0; i < peg->bytecode_len; i++)\n        bytecode[i] = (uint32_t) janet_unmarshal_int(ctx);\n    for (uint32_t j = 0; j < peg->num_constants; j++)\n        constants[j] = janet_unmarshal_janet(ctx);",
                     "    for (uint32_t j = 0; j < peg->num_constants; j++)\n        constants[j] = janet_unmarshal_janet(ctx);\n    for (size_t i = 0; i < peg->bytecode_len; i++)\n        bytecode[i] = (uint32_t) janet_unmarshal_int(ctx);", "order"),
